@@ -705,6 +705,7 @@ func (c *FuncCtx) assumeInv(st *State, li *loopInfo, inv []*Clause) {
 }
 
 func (c *FuncCtx) havocLoop(st *State, li *loopInfo) {
+	c.havocFrontiers(st)
 	for _, o := range li.modVars {
 		old, ok := st.vars[o]
 		if !ok {
